@@ -1,6 +1,8 @@
 (* C09 — executable transcription of p2p/host/peerstore/pstoremem/addr_book.go
    (the repaired tree: peerAddrs.Update pushes an entry that leaves the
-   connected class).  No proofs here.
+   connected class; every write first purges the peer's expired, not yet
+   collected entries; record addresses are compared as transport addresses).
+   No proofs here.
 
    Layout kept from the code: every stored entry carries the flag
    "is in expiringHeap" (heapIndex <> -1).  The ORDER inside the heap is
@@ -46,6 +48,11 @@ Definition pa_delete (p a : Z) (l : list ment) : list ment :=
 Definition maybe_delete_rec (p : Z) (ents : list ment) (recs : list arec) : list arec :=
   if m_has_peer p ents then recs else remove_rec p recs.
 
+(* purgeExpiredUnlocked: drop p's expired entries, then p's record if nothing is left *)
+Definition m_purge (s : mbook) (p : Z) : mbook :=
+  let ents := filter (fun x => negb ((ep (me x) =? p) && expired_by (m_now s) (me x))) (m_ents s) in
+  mkMB (m_now s) ents (maybe_delete_rec p ents (m_recs s)).
+
 (* the loop body of addAddrsUnlocked for one (already split) address *)
 Fixpoint m_add_one (p a ttl exp : Z) (l : list ment) : list ment :=
   match l with
@@ -81,7 +88,12 @@ Fixpoint m_set_one (p a ttl exp : Z) (l : list ment) : list ment :=
       else x :: m_set_one p a ttl exp r
   end.
 
-Definition m_set (s : mbook) (p : Z) (addrs : list raw) (ttl : Z) : mbook :=
+(* addAddrs (AddAddr / AddAddrs): purge, then addAddrsUnlocked *)
+Definition m_add (s : mbook) (p : Z) (addrs : list raw) (ttl : Z) : mbook :=
+  m_add_unlocked (m_purge s p) p addrs ttl.
+
+Definition m_set (s0 : mbook) (p : Z) (addrs : list raw) (ttl : Z) : mbook :=
+  let s := m_purge s0 p in
   let ents :=
     fold_left (fun l (r : raw) =>
                  if snd r =? 2 then l else m_set_one p (fst r) ttl (m_now s + ttl) l)
@@ -101,35 +113,33 @@ Fixpoint m_update_ents (p old new exp : Z) (l : list ment) : list ment :=
       else x :: m_update_ents p old new exp r
   end.
 
-Definition m_update (s : mbook) (p old new : Z) : mbook :=
+Definition m_update (s0 : mbook) (p old new : Z) : mbook :=
+  let s := m_purge s0 p in
   let ents := m_update_ents p old new (m_now s + new) (m_ents s) in
   mkMB (m_now s) ents (maybe_delete_rec p ents (m_recs s)).
 
 Definition m_clear (s : mbook) (p : Z) : mbook :=
   mkMB (m_now s) (filter (fun x => negb (ep (me x) =? p)) (m_ents s)) (remove_rec p (m_recs s)).
 
-Definition raw_eqb (x y : raw) : bool := (fst x =? fst y) && (snd x =? snd y).
-Definition raw_mem (x : raw) (l : list raw) : bool := existsb (raw_eqb x) l.
-
-(* ConsumePeerRecord's eviction loop: keys are the RAW bytes of the record's
-   addresses, so only a suffix-free address of the old record can be found in
-   the store, and "still listed" compares raw forms *)
-Definition m_evict (p : Z) (prev new : list raw) (ents : list ment) : list ment :=
-  fold_left (fun l (a : raw) =>
-               if raw_mem a new then l
-               else if negb (snd a =? 0) then l            (* key with /p2p suffix: not in the map *)
-               else match find (fun x => key_is p (fst a) (me x)) l with
+(* ConsumePeerRecord's eviction loop over the transport addresses (SplitAddr,
+   foreign /p2p suffixes skipped) of the previous record; "still listed"
+   compares with the transport addresses of the new record *)
+Definition m_evict (p : Z) (prev new : list Z) (ents : list ment) : list ment :=
+  fold_left (fun l a =>
+               if zmem a new then l
+               else match find (fun x => key_is p a (me x)) l with
                     | None => l
-                    | Some x => if conn (ettl (me x)) then l else pa_delete p (fst a) l
+                    | Some x => if conn (ettl (me x)) then l else pa_delete p a l
                     end)
             prev ents.
 
-Definition m_consume (s : mbook) (p seq id : Z) (addrs : list raw) (ttl : Z) : mbook * Z :=
+Definition m_consume (s0 : mbook) (p seq id : Z) (addrs : list raw) (ttl : Z) : mbook * Z :=
+  let s := m_purge s0 p in
   let last := find_rec p (m_recs s) in
   if match last with Some r => seq <? rseq r | None => false end then (s, 0)
   else
     let ents1 := match last with
-                 | Some r => m_evict p (raddrs r) addrs (m_ents s)
+                 | Some r => m_evict p (clean_addrs (raddrs r)) (clean_addrs addrs) (m_ents s)
                  | None => m_ents s
                  end in
     let recs1 := set_rec (mkR p seq id addrs) (m_recs s) in
@@ -164,7 +174,7 @@ Definition m_heapcount (s : mbook) : Z := zlen' (filter mheap (m_ents s)).
 
 Definition m_step (s : mbook) (o : op) : mbook * obs :=
   match o with
-  | OAdd p ttl l => (m_add_unlocked s p l ttl, ONone)
+  | OAdd p ttl l => (m_add s p l ttl, ONone)
   | OSet p ttl l => (m_set s p l ttl, ONone)
   | OUpdate p old new => (m_update s p old new, ONone)
   | OClear p => (m_clear s p, ONone)
